@@ -179,6 +179,8 @@ class RecordWorld(World):
         if r < 0.91:
             return {"op": "align", "index": ro.randint(0, n - 1)}
         if r < 0.93:
+            if ro.random() < 0.35:
+                return {"op": "deinit", "uninit": ro.random() < 0.4}
             return {"op": "reset", "fill": ro.choice([0, 0, 1, 7, None])}
         if r < 0.95:
             return {"op": "latest_set", "obs": self._obs(ro, vals, shape, dtype, lazy)}
@@ -862,6 +864,21 @@ class _RecordRun:
         if rt.pointer != 0:
             ctx.fail("align_pointer", self.facts(op="reset"), f"pointer {rt.pointer} after reset")
         self.check_state("reset")
+
+    def op_deinit(self, op):
+        """storage dropped (documented: device, data type and gradient requirement are kept, the pointer returns to 0); the next push re-creates it"""
+        ctx, rt, m = self.ctx, self.rt, self.m
+        if not m.init:
+            return
+        with ctx.impl("deinitialize", self.facts(uninit=op["uninit"])):
+            rt.deinitialize(use_uninitialized=op["uninit"])
+        ctx.fault("storage_deinitialised")
+        m.init = False
+        m.hist = []
+        self.kind = "deinit"        # a typed, empty placeholder: the next push keeps the record's dtype
+        self.writes = 0
+        ctx.log("deinit", op["uninit"])
+        self.check_state("deinitialize")
 
     def op_refused(self, op):
         ctx, rt, m = self.ctx, self.rt, self.m
